@@ -876,7 +876,18 @@ func (sy *symbols) collect(t *Term, bound map[string]bool) {
 	walk(t)
 }
 
+func sortStr(s *Sort, real bool) string {
+	if real && s == IntS {
+		return "Real"
+	}
+	return s.String()
+}
+
 func (sy *symbols) decls(defined map[string]bool) string {
+	return sy.declsMode(defined, false)
+}
+
+func (sy *symbols) declsMode(defined map[string]bool, real bool) string {
 	var sb strings.Builder
 	var ss []string
 	for s := range sy.sorts {
@@ -892,7 +903,7 @@ func (sy *symbols) decls(defined map[string]bool) string {
 	}
 	sort.Strings(ns)
 	for _, n := range ns {
-		fmt.Fprintf(&sb, "(declare-fun %s () %s)\n", sanitize(n), sy.vars[n])
+		fmt.Fprintf(&sb, "(declare-fun %s () %s)\n", sanitize(n), sortStr(sy.vars[n], real))
 	}
 	ns = ns[:0]
 	for n := range sy.apps {
@@ -909,9 +920,9 @@ func (sy *symbols) decls(defined map[string]bool) string {
 			if i > 0 {
 				sb.WriteString(" ")
 			}
-			sb.WriteString(x.S.String())
+			sb.WriteString(sortStr(x.S, real))
 		}
-		fmt.Fprintf(&sb, ") %s)\n", a.S)
+		fmt.Fprintf(&sb, ") %s)\n", sortStr(a.S, real))
 	}
 	return sb.String()
 }
@@ -1038,6 +1049,7 @@ type sharer struct {
 	names  map[*Term]string
 	order  []*Term
 	size   map[*Term]int
+	real   bool
 }
 
 func newSharer() *sharer {
@@ -1099,6 +1111,14 @@ func (sh *sharer) write(t *Term, sb *strings.Builder, top bool) {
 	}
 	switch t.Op {
 	case "true", "false", "const", "var":
+		if sh.real && t.Op == "const" && t.S == IntS {
+			if t.V.Sign() < 0 {
+				sb.WriteString("(- " + new(big.Int).Neg(t.V).String() + ".0)")
+			} else {
+				sb.WriteString(t.V.String() + ".0")
+			}
+			return
+		}
 		t.write(sb)
 	case "constarr":
 		fmt.Fprintf(sb, "((as const %s) ", t.S)
@@ -1152,7 +1172,7 @@ func (sh *sharer) write(t *Term, sb *strings.Builder, top bool) {
 func (sh *sharer) defs(sb *strings.Builder) {
 	for _, t := range sh.order {
 		if nm, ok := sh.names[t]; ok {
-			fmt.Fprintf(sb, "(define-fun %s () %s ", nm, t.S)
+			fmt.Fprintf(sb, "(define-fun %s () %s ", nm, sortStr(t.S, sh.real))
 			sh.write(t, sb, true)
 			sb.WriteString(")\n")
 		}
